@@ -147,7 +147,22 @@ var strPool = [][]byte{
 var badUtf8 = [][]byte{{0xff}, {0xc0, 0x80}, {0xe2, 0x80}, {0xed, 0xa0, 0x80}, {0xf4, 0x90, 0x80, 0x80}, {0x80}, {'a', 0xc3}, {0xc3, '"'}, {0xf0, 0x9f, 0x98}, {'\\', 0xff}, {'\n', 0xe9}}
 
 func (r *rng) genStr(o genOpts) []byte {
-	switch r.n(10) {
+	switch r.n(11) {
+	case 10:
+		// a long string that needs escaping in JSON: raw lengths sweep the region around the
+		// parsers' inline buffer sizes (64) and the JSON unquote threshold (cap - 8)
+		n := 44 + r.n(33)
+		if r.chance(1, 4) {
+			n = 116 + r.n(18)
+		}
+		b := make([]byte, n)
+		for i := range b {
+			b[i] = byte('a' + i%26)
+		}
+		for k := 1 + r.n(2); k > 0; k-- {
+			b[r.n(n)] = []byte{'\n', '"', '\\', '\t'}[r.n(4)]
+		}
+		return b
 	case 0:
 		n := r.n(12)
 		b := make([]byte, n)
